@@ -442,6 +442,54 @@ def chain_case(job, acc: Acc):
         acc.sample({"depth": depth, "order": list(order), "mode": mode, "leaf": files[leaf], "expected": want})
 
 
+# --------------------------------------------------------- interface bodies
+IFACE_BLOCKS = {"unnamed": ("interface", "end interface"), "abstract": ("abstract interface", "end interface"),
+                "generic": ("interface apply_g", "end interface apply_g")}
+IFACE_IMPORTS = {"import_named": ("    import :: host_t", True), "import_all": ("    import", True), "import_two": ("    import :: other_t, host_t", True),
+                 "no_import": (None, False), "import_other_only": ("    import :: other_t", False)}
+
+
+def iface_jobs():
+    for block in IFACE_BLOCKS:
+        # (hosts whose types are known project-wide; a type local to an external procedure is outside "defined in the project")
+        for host in ("module", "program"):
+            for imp in IFACE_IMPORTS:
+                for use_kind in ("type", "class_ptr"):
+                    yield (block, host, imp, use_kind)
+
+
+def iface_case(job, acc: Acc):
+    """A derived type of the host is accessible in an interface body only through IMPORT, whatever the kind of the
+    interface block (unnamed, abstract, named generic) and of the host."""
+    block, host, imp, use_kind = job
+    opener, closer = IFACE_BLOCKS[block]
+    imp_line, valid = IFACE_IMPORTS[imp]
+    head = {"module": ["module ih", "  implicit none"], "program": ["program ih", "  implicit none"], "subroutine": ["subroutine ih()", "  implicit none"]}[host]
+    L = head + ["  type :: host_t", "    integer :: c", "  end type host_t", "  type :: other_t", "    integer :: d", "  end type other_t", "  " + opener,
+                "    subroutine body_s(a)"]
+    if imp_line:
+        L.append("  " + imp_line)
+    use_line = len(L)
+    L.append("      type(host_t) :: a" if use_kind == "type" else "      class(host_t), pointer :: a")
+    L += ["    end subroutine body_s", "  " + closer, "end " + host + " ih"]
+    text = "\n".join(L) + "\n"
+    d = diagnostics_of({"prog.f90": text}).get("prog.f90", [])
+    errs = [x for x in d if x[1] == 1]
+    acc.case(nontrivial_key=job, outcome=(valid, len(errs)))
+    tags = {"family": "interface_import", "block": block, "host": host, "import": imp}
+    cs = {"job": list(job), "text": text}
+    if valid:
+        for ln, sev, msg in errs:
+            acc.violation(Violation("interface_import", {**tags, "obs": "error_on_valid_program"}, cs, "no error", [ln, msg], what=f"{job}: valid, but line {ln}: {msg}"))
+    else:
+        hit = [x for x in errs if x[0] == use_line and re.search(r"host_t", x[2]) and re.search(r"not (imported|found)", x[2])]
+        if not hit:
+            acc.violation(Violation("interface_import", {**tags, "obs": "missing"}, cs, f"an error about host_t on line {use_line}", d, what=f"{job}: host_t is not accessible in the interface body, diagnostics {d}"))
+        for ln, sev, msg in errs:
+            if ln != use_line:
+                acc.violation(Violation("interface_import", {**tags, "obs": "unrelated_error"}, cs, "no other error", [ln, msg], what=f"{job}: line {ln}: {msg}"))
+
+
 def main(ctx):
     ctx.rule = ("valid: 6 canonical programs + 6 programs using the bundled intrinsic modules + every generated structure tree of C04 up "
                 "to a node budget must publish no error-severity diagnostic; seeded: for every canonical program and every small "
@@ -480,6 +528,9 @@ def main(ctx):
     cacc = core.pmap(chain_case, cj, chunk=4, budget_s=120, label="C07/multifile")
     ctx.add_family("multifile", cacc, what="deferred binding over an EXTENDS chain of 2..%d types, one file per type, every file order, "
                    "at start-up and opened one by one, binding implemented / missing" % (3 if ctx.quick else 4))
+    iacc = core.pmap(iface_case, list(iface_jobs()), chunk=4, budget_s=120, label="C07/iface")
+    ctx.add_family("interface_import", iacc, what="a host's derived type named in an interface body: 3 kinds of interface block (unnamed, abstract, named generic) x 2 hosts (module, program) x "
+                   "5 IMPORT forms (two of them leave the type inaccessible) x TYPE / CLASS declaration")
     missing = [c for c in CLASS_MESSAGES if c.split(":")[0] not in per_class and c not in ("procedure_in_type", "procedure_in_block")]
     if missing:
         raise core.HarnessError(f"no seeding position for classes {missing}")
@@ -490,6 +541,8 @@ def replay(rec):
     acc = Acc()
     if rec["family"] == "multifile":
         chain_case((c["depth"], tuple(c["order"]), c["implemented"], c["mode"]), acc)
+    elif rec["family"] == "interface_import":
+        iface_case(tuple(c["job"]), acc)
     elif rec["family"] == "valid":
         valid_case((c["program"], c["text"]), acc)
     else:
